@@ -1,7 +1,9 @@
 (* C08 (record level): a coverage row bins each valid window by the multiplicity of its canonical k-mer. *)
-From Coq Require Import NArith ZArith List.
+From Coq Require Import NArith ZArith List Reals.
+From Flocq Require Import Core.
 From KT Require Import Gen.Generated Gen.Alphabet Gen.GeneratedFacts Model.Kmer Model.Ops Model.Rows.
 From KT Require Import Model.Pipeline Proof.Oligo Proof.RowsProof Proof.FileSpecProof.
+From KT Require Import Model.Show Proof.FmtError.
 Import ListNotations.
 Open Scope N_scope.
 
@@ -43,6 +45,15 @@ Proof.
   exact (cov_model_spec k bs bc norm delim mem recs alt Hk Hbc (D recs Hr) (D alt Ha)).
 Qed.
 
+(* "correct to 6 decimals": the printed entry is the 6-decimal text of an n with
+   |n / 10^6 - count / max(1, total)| <= 0.5e-6 + 2^-53 (half a unit of the last printed digit plus the rounding
+   of the single binary64 division); fix6 n is the decimal text of n / 10^6 *)
+Theorem C08_printed_fraction_correct_to_six_decimals :
+  forall t c, (c <= Nat.max 1 t)%nat -> (Z.of_nat (Nat.max 1 t) < 2 ^ 53)%Z ->
+  exists n, entry_text true t c = fix6 n /\ (n <= 1000000)%N /\
+    (Rabs (IZR (Z.of_N n) / 1000000 - IZR (Z.of_nat c) / IZR (Z.of_nat (Nat.max 1 t))) <= / 2000000 + bpow radix2 (-53))%R.
+Proof. exact entry_text_correct. Qed.
+
 Example C08_example : cov_counts 3 2 4 [(0, 5); (2, 1)] [65;65;65;78;71;65;71;65] = [2; 0; 1; 0]%nat.
 Proof. vm_compute. reflexivity. Qed.
 
@@ -51,3 +62,4 @@ Print Assumptions C08_row_has_bin_count_entries.
 Print Assumptions C08_every_window_in_exactly_one_bin.
 Print Assumptions C08_absent_kmer_in_bin_zero.
 Print Assumptions C08_vectors_file_is_one_spec_row_per_record.
+Print Assumptions C08_printed_fraction_correct_to_six_decimals.
